@@ -590,6 +590,7 @@ def c08(chk, tier):
         "code level (pattern mode): the receiver that expects pkS is handed the encapsulated key of an impostor "
         "(other identity pair; honest pkS paired with a foreign private key; non-authenticated mode; wrong PSK): it must "
         "reject the impostor's ciphertexts and export different secrets, while it opens the honest sender's messages"]
+    # (the design-level search covers all four KEMs in both tiers)
     model_check(chk, "MC_Setup", "MC_Setup.cfg", "mc_auth",
                 setup_over(KemSet=kset(KEMS), KdfSet="{1}", AeadSet="{1}", ModeSet="{1, 2, 3}", Vals='"small"',
                            Shape='"one"', Perturb='{"none", "pks", "psk"}', Impost=True),
@@ -599,24 +600,26 @@ def c08(chk, tier):
         want = lambda last, tr: last["op"] in ("setup_s", "setup_r", "open", "export")
         for i, kem in enumerate(KEMS):
             # impostor senders against the receiver that expects the honest identity / PSK
+            # (quick: the PSK-only mode on X25519 only; the authenticated modes on every KEM)
             setup_transitions(chk, ses, "gen_auth_%d" % kem,
                               setup_over(KemSet="{%d}" % kem, KdfSet=kset([rot([1, 2, 3], i)]),
-                                         AeadSet=kset([rot([1, 2, 3], i + 1)]), ModeSet="{1, 2, 3}",
+                                         AeadSet=kset([rot([1, 2, 3], i + 1)]),
+                                         ModeSet="{1, 2, 3}" if (thorough or kem == 32) else "{2, 3}",
                                          Vals='"leaf"', Shape='"one"', Perturb='{"none"}',
-                                         Impost=True, Emit=True, MaxSeals=2, MaxOpens=2, MaxExports=1),
+                                         Impost=True, Emit=True, MaxSeals=2, MaxOpens=2 if thorough else 1, MaxExports=1),
                               want=want, casekey=tr_key("c08"))
             # receivers that expect another identity key / hold another PSK (every single PSK bit)
             setup_transitions(chk, ses, "gen_psk_%d" % kem,
                               setup_over(KemSet="{%d}" % kem, KdfSet=kset([rot([1, 2, 3], i + 1)]),
                                          AeadSet=kset([rot([1, 2, 3], i)]), ModeSet="{1, 2, 3}",
                                          Vals='"leaf"', Shape='"one"',
-                                         Perturb='{"none", "pks", "psk", "pskbits"}' if thorough or kem == rot(list(KEMS), 0) else '{"none", "pks", "psk"}',
+                                         Perturb='{"none", "pks", "psk", "pskbits"}' if thorough or kem == rot(list(KEMS), 0) or kem == 32 else '{"none", "pks", "psk"}',
                                          Emit=True, MaxSeals=1, MaxOpens=1, MaxExports=1),
                               want=want, casekey=tr_key("c08p"))
     finally:
         ses.close()
     require_outcomes(chk, ['setup_s/ok', 'setup_r/ok', 'open/ok', 'open/err/OpenError', 'export/ok'])
-    chk.cov["rule"] = ("4 KEMs x {Psk, Auth, AuthPsk}: honest sender, impostors (foreign key pair, public half only, "
+    chk.cov["rule"] = ("4 KEMs x {Psk, Auth, AuthPsk} (quick: the PSK-only mode on X25519 only): honest sender, impostors (foreign key pair, public half only, "
                        "non-authenticated mode, wrong PSK incl. every single PSK bit) against a receiver expecting pkS / the "
                        "PSK; distinct = distinct (suite, mode, impostor and receiver arguments, call, outcome)")
 
@@ -676,8 +679,8 @@ def c14(chk, tier):
     try:
         for i, kem in enumerate(KEMS):
             x = kem == 32
-            aeads = "{1, 2, 3, 65535}" if thorough else kset([rot([1, 2, 3], i), 65535] if x else [rot([1, 2, 3], i)])
-            kdfs = "{1, 2, 3}" if thorough else kset([rot([1, 2, 3], i)])
+            aeads = kset([rot([1, 2, 3], i), rot([1, 2, 3], i + 1), 65535]) if thorough else kset([rot([1, 2, 3], i), 65535] if x else [rot([1, 2, 3], i)])
+            kdfs = kset([rot([1, 2, 3], i), rot([1, 2, 3], i + 1)]) if thorough else kset([rot([1, 2, 3], i)])
             # allocating vs in-place detached: twin senders seal the same messages in the two forms
             forms = setup_over(KemSet="{%d}" % kem, KdfSet=kdfs, AeadSet=aeads, Vals='"leaf"', Shape='"one"', Twin=True,
                                Perturb='{"none", "skr"}', MaxSeals=2, MaxOpens=2, FormMenu='{"alloc", "detached"}')
